@@ -16,7 +16,8 @@ R5 hand-over in `_synchronize_workflows`: in the recovering branch the *running*
    workflow's port gets a PROPAGATE rule towards the new workflow's port keyed by the job token's
    tag and the job's outputs are promoted to roots of the new token graph; in the other branch `_update_request` (which marks the job ROLLBACK after counting) is
    awaited before the request records the new workflow, on every path; `RecoveryRequest.workflow`
-   is written nowhere else.
+   is written nowhere else.  `_get_recovery_port`: each returned value is read through temporaries (flow-sensitive
+   reaching definitions: `tmp = <expr>; return tmp`), the facts are those known where <expr> is evaluated.
 R6 (added) every coroutine call on the synchronisation path is awaited.
 R7 (added, seeded change C19/1) the answer to `is this job already being recovered` is obtained under the request
    locks.  The test of `_synchronize_workflows` that separates the hand-over from the rollback is located through
@@ -72,6 +73,7 @@ from ._util_D import (
     recovering_statuses,
     region,
     resolves_to,
+    returned_exprs,
     stage_calls,
     strip,
     succ,
@@ -514,9 +516,10 @@ def r5(ctx):
             h.module, e.args[1]) == "streamflow.workflow.port.InterWorkflowPort"
 
     n_existing = n_created = 0
-    for n in rets:
-        v = strip(n.ast.value)
-        facts = path_facts(gh, n.id)
+    for n, (v, at) in [(n, ve) for n in rets for ve in returned_exprs(h, n.ast, with_stmt=True)]:
+        # `tmp = <expr>; return tmp` reads like `return <expr>`: the facts are those known where <expr> is evaluated
+        v = strip(v)
+        facts = path_facts(gh, n.id) + ([x for i in gh.ids_of(at) for x in path_facts(gh, i)] if at is not n.ast else [])
         present = membership_fact(facts, lambda e: isinstance(e, ast.Name), in_ports)
         if isinstance(v, ast.Subscript) and in_ports(v.value):
             n_existing += 1
@@ -762,7 +765,16 @@ VARIANTS = [
     V("new workflow not recorded", FM_FILE, _SYNC, "\n            retry_request.workflow = workflow", "", "R5"),
     V("ROLLBACK claim dropped", FM_FILE, f"{RFM}._update_request", "        await self.context.scheduler.notify_status(job_name, Status.ROLLBACK)\n", "", "R5"),
     V("_update_request called outside the locks", FM_FILE, f"{RFM}.recover", "    await self._do_handle_failure(job, step)", "    await self._update_request(job.name)\n    await self._do_handle_failure(job, step)", "R5"),
+    V("recovery port through a temporary that is re-created afterwards", FM_FILE, f"{FM}._get_recovery_port",
+      "    else:\n        return recovery_workflow.ports[port_name]",
+      "    else:\n        _sf_ret = recovery_workflow.ports[port_name]\n        _sf_ret = recovery_workflow.create_port(cls=type(original_workflow.ports[port_name]), name=port_name)\n        return _sf_ret", "R5"),
     # benign
+    V("recovery port returned through temporaries (tempret)", FM_FILE, f"{FM}._get_recovery_port",
+      "        return recovery_workflow.create_port(cls=type(original_workflow.ports[port_name]), name=port_name)\n    else:\n        return recovery_workflow.ports[port_name]",
+      "        _sf_ret = recovery_workflow.create_port(cls=type(original_workflow.ports[port_name]), name=port_name)\n        return _sf_ret\n    else:\n        _sf_ret = recovery_workflow.ports[port_name]\n        return _sf_ret", None),
+    V("recovery port: one return at the end", FM_FILE, f"{FM}._get_recovery_port",
+      "        return recovery_workflow.create_port(cls=type(original_workflow.ports[port_name]), name=port_name)\n    else:\n        return recovery_workflow.ports[port_name]",
+      "        port = recovery_workflow.create_port(cls=type(original_workflow.ports[port_name]), name=port_name)\n    else:\n        port = recovery_workflow.ports[port_name]\n    return port", None),
     V("execution extracted into a helper called after the lock scope", FM_FILE, RFM,
       "        executor = StreamFlowExecutor(new_workflow)\n        await executor.run()\n",
       "        await self._execute(new_workflow)\n\n    async def _execute(self, wf: Workflow) -> None:\n        executor = StreamFlowExecutor(wf)\n        await executor.run()\n", None),
